@@ -21,7 +21,7 @@ from typing import Any, Callable, Dict, List, Optional, Sequence, Tuple
 from .model import norm
 
 
-_BUILTIN_TYPES = {t.__name__: t for t in (bool, int, float, complex, str, bytes, tuple, list, dict, set, frozenset, object, type)}
+_BUILTIN_TYPES = {t.__name__: t for t in (bool, int, float, complex, str, bytes, bytearray, tuple, list, dict, set, frozenset, object, type)}
 
 
 class Unsupported(Exception):
@@ -456,7 +456,7 @@ class Interp:
                     return Opaque(c.label + "[:]")
                 lo = self.ev(e.slice.lower) if e.slice.lower is not None else None
                 hi = self.ev(e.slice.upper) if e.slice.upper is not None else None
-                if not isinstance(c, (list, tuple)):
+                if not isinstance(c, (list, tuple, str, bytes)):
                     raise Unsupported(e, "(slice of a non-sequence)")
                 return c[lo:hi]
             k = self.ev(e.slice)
@@ -576,7 +576,7 @@ class Interp:
                 return r
         if isinstance(a, Opaque) or isinstance(b, Opaque):
             return Opaque("binop")
-        if isinstance(op, ast.Add) and type(a) is type(b) and isinstance(a, (int, list, tuple, str)):
+        if isinstance(op, ast.Add) and type(a) is type(b) and isinstance(a, (int, list, tuple, str, bytes)):
             return a + b
         if isinstance(op, ast.Mult) and isinstance(a, str) and isinstance(b, int):
             return a * b
@@ -588,6 +588,12 @@ class Interp:
             return a - b
         if isinstance(op, ast.Sub) and isinstance(a, (set, frozenset)) and isinstance(b, (set, frozenset)):
             return a - b
+        if isinstance(op, ast.Sub) and isinstance(a, list) and isinstance(b, (set, frozenset)):
+            # `d.keys() - s`: this engine represents a keys view as a list
+            try:
+                return set(a) - b
+            except TypeError:
+                raise PyRaise("TypeError", None)
         if isinstance(op, ast.BitOr) and isinstance(a, (set, frozenset)) and isinstance(b, (set, frozenset)):
             return a | b
         if isinstance(op, ast.BitAnd) and isinstance(a, (set, frozenset)) and isinstance(b, (set, frozenset)):
@@ -826,6 +832,11 @@ class Interp:
                 return list(r) if meth != "get" else r
             if isinstance(recv, str) and meth in ("split", "strip", "startswith", "endswith", "lower", "upper", "replace", "isdigit", "isdecimal", "lstrip", "rstrip", "splitlines", "index", "find", "count") and not any(isinstance(a, Opaque) for a in args):
                 return getattr(recv, meth)(*args)
+            if isinstance(recv, bytes) and meth in ("endswith", "startswith", "decode", "split", "strip", "index", "find", "count", "lower", "upper") and not any(isinstance(a, Opaque) for a in args):
+                try:
+                    return getattr(recv, meth)(*args)
+                except (UnicodeDecodeError, ValueError) as ex:
+                    raise PyRaise(type(ex).__name__, None)
             if isinstance(recv, str) and meth == "join" and len(args) == 1 and isinstance(args[0], (list, tuple)) and all(isinstance(x, str) for x in args[0]):
                 return recv.join(args[0])
             if isinstance(recv, str) and meth == "format":
